@@ -55,7 +55,8 @@ package linking
 // succeeds it has consumed the stream to its end (proved for the bundled decoders under C06).
 //@ functype codec.Decoder(na, r) (err)
 //@   requires na != nil && r != nil
-//@   assigns foreign, r.pos, r.teesrc.pos, r.teesink.fed
+//@   assigns foreign, r.pos, r.teesrc.pos, r.teesink.fed, datamodel.slot(na)
+//@   ensures err == nil ==> datamodel.slotdone(na, na.out)
 //@   ensures r.teesink == nil ==> old(r.pos) <= r.pos && r.pos <= io.blen(r.data) && (err == nil ==> r.pos == io.blen(r.data))
 //@   ensures r.teesink != nil ==> old(r.teesrc.pos) <= r.teesrc.pos && r.teesrc.pos <= io.blen(r.teesrc.data)
 //@   ensures r.teesink != nil ==> r.teesink.fed == old(r.teesink.fed) + (r.teesrc.pos - old(r.teesrc.pos)) && (err == nil ==> r.teesrc.pos == io.blen(r.teesrc.data))
@@ -72,7 +73,8 @@ package linking
 
 //@ func (*LinkSystem).Fill(lnkCtx, lnk, na) (err)
 //@   requires lsys != nil && lnk != nil && na != nil && lsys.DecoderChooser != nil && lsys.HasherChooser != nil
-//@   assigns foreign, ghostall("io.Reader.pos"), ghostall("io.Writer.fed"), ghostall("io.Writer.fedof"), ghostall("BlockWriteCommitter.calls")
+//@   assigns foreign, ghostall("io.Reader.pos"), ghostall("io.Writer.fed"), ghostall("io.Writer.fedof"), ghostall("BlockWriteCommitter.calls"), datamodel.slot(na)
+//@   ensures[C16] err == nil ==> datamodel.slotdone(na, na.out)
 //@   ensures[C06] !lsys.TrustedStorage && err == nil ==> decodeErr == nil && reader.pos == io.blen(reader.data) && hasher.fed == io.blen(reader.data) && hasher.fedof == reader.data
 //@   ensures[C06] !lsys.TrustedStorage && err == nil ==> lbin(lnk2.lid) == lbin(lnk.lid) && lnk2.lid == mklid(protoOf(lnk.lid), hash.hd(hash.halg(hasher), reader.data, io.blen(reader.data)))
 //@   ensures[C06] !lsys.TrustedStorage && decodeErr != nil && reader.pos == io.blen(reader.data) ==> hasher.fed == io.blen(reader.data) && hasher.fedof == reader.data && (iserr(err, "ErrHashMismatch") || lbin(lnk2.lid) == lbin(lnk.lid))
@@ -98,6 +100,7 @@ package linking
 //@   assigns foreign, ghostall("io.Reader.pos"), ghostall("io.Writer.fed"), ghostall("io.Writer.fedof"), ghostall("BlockWriteCommitter.calls")
 //@   before commitFn assert[C05,C06] carg0 == lnk && writer.fedof == encOf(chosenEnc(lsys.EncoderChooser, lp), n.val) && writer.fed == io.blen(encOf(chosenEnc(lsys.EncoderChooser, lp), n.val))
 //@   ensures[C05] l != nil ==> l.lid == mklid(lp, hash.hd(algOf(lsys.HasherChooser, lp), encOf(chosenEnc(lsys.EncoderChooser, lp), n.val), io.blen(encOf(chosenEnc(lsys.EncoderChooser, lp), n.val))))
+//@   ensures[C05,C16] err == nil ==> l != nil
 //@   ensures[C05,C06] l != nil ==> commitFn.calls == old(commitFn.calls) + 1
 //@   ensures[C06] l == nil && commitFn != nil ==> commitFn.calls == old(commitFn.calls)
 
